@@ -13,3 +13,17 @@ CHECKS = {
         note="Trusts vlib/pinned/layout.json (generated from the tree after the fix: commits; it is also the table source of the reference decoder used by C01-C13, so a wrong pin disagrees with the decoder's behaviour there).",
         technique="exhaustive enumeration of the (finite) layout tables against a pinned snapshot"),
 }
+ENGINES.append({"name": "choice", "path": "vlib/engines/choice.py", "serves_properties": ["C01", "C02", "C11"], "kind_free_text": "engine A: stateless deviation-bounded exploration of the choice tree of a generator of well-formed encodings; every execution runs the real decoder and is compared with a reference model or a model-free invariant"})
+_A = "Stateless model checking of the real decoder: every choice vector with at most k non-default choices of the generator of well-formed encodings is executed (k iterated per root up to an execution budget; every one of the 231 non-union types, every primitive, every command code as command / response / two-message stream, sessions, parameter encryption, failed responses). "
+CHECKS["C01"] = dict(engine="choice", level="model_checking", ref="DESIGN.md 6 C01, 5.1, 4.2",
+    text=_A + "Oracle: reference decoder over the pinned layout (events equal in number, path, declared type, value, value class; strict decode succeeds; all bytes pulled); the generator's intent is checked against the reference on every execution before the implementation is consulted.",
+    note="Bounds: deviations <= k (2..3 quick, 3..4 thorough for structures; 1 / 2 for frames), counts and buffer sizes in {0,1,2}, <= 3 sessions. Trusts the reference decoder and the pin; both are tied to the generator by the self-check.",
+    technique="stateless deviation-bounded exploration of the real decoder against a reference model (explicit enumeration of choice vectors)")
+CHECKS["C02"] = dict(engine="choice", level="model_checking", ref="DESIGN.md 6 C02",
+    text=_A + "Oracle (model-free): join(Binary.unmarshal(events)) == input, every primitive event re-encodes to the input slice at its accumulated offset with the pinned width, structural and warning events to nothing; in warn mode additionally every out-of-range substitution of every constrained leaf, kept when only value problems are reported.",
+    note="Same bounds as C01; warn-mode part over the default encodings (thorough: <= 1 deviation, pairs of corruptions for defaults).",
+    technique="stateless deviation-bounded exploration + exhaustive single-fault enumeration, round-trip oracle on the real code")
+CHECKS["C11"] = dict(engine="choice", level="model_checking", ref="DESIGN.md 6 C11",
+    text=_A + "Oracle (relational, two paths through the real code): decoder's returned object == events_to_obj(events); obj_to_events of either == decoded events (length, path, type, value, value class); Canonical(bytes) and Canonical(obj) agree; re-encoding the object gives the input.",
+    note="Same bounds as C01 without streams (C09 covers events_to_objs). Equality is Python ==.",
+    technique="stateless deviation-bounded exploration of the real code with a differential (round-trip) oracle")
